@@ -196,6 +196,7 @@ REGRESSIONS = {
     "h2f": ["h2f 8192 000000040000000000000000010500000001",                        # D11 empty HEADERS: no :path
             "h2f 8192 0000000400000000000000070105000000017f808080808001",          # D10 HPACK integer, 6 bytes
             "h2f 8192 0000000400000000000000070105000000013f808080808001",
+            "h2f 8192 0000000400000000000000060105000000017fffffffff0f",            # D20 5-byte integer, top digit 0x0f
             "h2f 8192 00000004000000000000000c0105000000018286844101617f8080808001"],
     "px": ["dig 1700000000 ~ " + C.hx(b'username="u", realm="realm", nonce="8000000000000000:x", uri="/x", response="' + b"0" * 32 + b'"'),
            "dig 1700000000 736563726574 " + C.hx(b'username="u", realm="realm", nonce="ffffffffffffffff:x", uri="/x", response="' + b"0" * 32 + b'"'),
@@ -513,7 +514,8 @@ HP_GET = bytes([0x82, 0x86, 0x84, 0x41, 0x01, 0x61])            # GET http / aut
 HP_POST = bytes([0x83, 0x86, 0x84, 0x41, 0x01, 0x61])
 HP_EXTRA = [bytes([0x90]), bytes([0x40, 0x01, 0x78, 0x01, 0x79]), bytes([0x00, 0x03]) + b"x-a" + bytes([0x02]) + b"bc",
             bytes([0x5c, 0x01, 0x35]), bytes([0x0f, 0x0d, 0x01, 0x35]), bytes([0x3f, 0xe1, 0x1f]), bytes([0x20]),
-            bytes([0xbe]), bytes([0xff, 0xff, 0xff, 0xff, 0x0f]), bytes([0x7f, 0x80, 0x80, 0x80, 0x80, 0x80, 0x01]),
+            bytes([0xbe]), bytes([0xff, 0xff, 0xff, 0xff, 0x0f]), bytes([0x7f, 0xff, 0xff, 0xff, 0xff, 0x0f]),
+            bytes([0x3f, 0xe1, 0xff, 0xff, 0xff, 0x08]), bytes([0x7f, 0x80, 0x80, 0x80, 0x80, 0x80, 0x01]),
             bytes([0x00, 0x85]) + b"\xff\xff\xff\xff\xff" + bytes([0x01, 0x61]), bytes([0x10, 0x7f, 0xff, 0xff, 0x03])]
 
 
